@@ -709,7 +709,10 @@ class CiderNumIntMixin:
         if cond:
             self.sdmxgen = self.sdmx_init.initialize_sdmx_generator(mol, nspin)
         self.mol = mol
-        self._mol_data = (mol._atm.copy(), mol._bas.copy(), mol._env.copy())
+        if mol is None:
+            self._mol_data = None
+        else:
+            self._mol_data = (mol._atm.copy(), mol._bas.copy(), mol._env.copy())
 
     def eval_xc_cider(
         self,
